@@ -886,8 +886,23 @@ def run(ctx) -> None:
     if latent:
         inst = "every cancellation finalizes at once, so the executors never see a cancelled command that is still registered"
         bad = check_sites(cancel)
+        from ..cmdgate import concluded_gate, executors_only_from_gate
+        gate_ok, ec_, _ = concluded_gate(prog, ctx.res)
+        gk_ = cfg_of(cancel)
+        # the cancellation that is applied to a live command records Cancelled on the request (R15g: on its own invocation)
+        cn_ = [n for n in gk_.nodes if n.ast is not None and any(call_attr(c) == "cancel" and not c.args for c in n.calls())]
+        recorded = bool(cn_) and all(gk_.path_to_exit_avoiding([n.id], lambda x: x.ast is not None and any(
+            call_attr(c) == "mark_cancelled" for c in x.calls()), follow_exc=False) is None for n in cn_)
         if not bad:
-            ctx.ok("R15f", inst, {"rule": "R15f", "latent_paths": len(latent)})
+            ctx.ok("R15f", inst, {"rule": "R15f", "latent_paths": len(latent), "by": "every cancellation finalizes at once"})
+        elif gate_ok and recorded and not executors_only_from_gate(prog):
+            # A cancellation that leaves the request in the executing list has recorded Cancelled for the request's invocation
+            # (or, when tracking refused the mark, recorded nothing conclusive). _execute_command - the only caller of the
+            # executors - retires a request whose invocation has concluded before it dispatches, so the latent paths are
+            # entered only by requests without a conclusive state.
+            ctx.ok("R15f", "a cancelled command that is still registered is retired by _execute_command before the executors see it",
+                   {"rule": "R15f", "latent_paths": len(latent), "by": "conclusive-state gate in _execute_command",
+                    "non_finalizing_cancellations": [f"{fn.short}: {norm(c)}" for fn, c, _ in bad]})
         else:
             fn, c, ff = bad[0]
             k, t, m2, pth = latent[0]
